@@ -47,6 +47,20 @@ class PropNode(Node):
     def bar(self, value):
         self.__dict__["_bar_value"] = value
 
+    @property
+    def ticket(self):
+        """A computed attribute whose every evaluation shows (a counter, a lazily allocated resource, next(iterator))."""
+        self.__dict__["_tickets"] = self.__dict__.get("_tickets", 0) + 1
+        return self.__dict__["_tickets"]
+
+    def __getattr__(self, name):
+        # computed defaults for names that are stored nowhere; every question is recorded
+        if name.startswith("dyn_"):
+            asked = self.__dict__.setdefault("_asked", [])
+            asked.append(name)
+            return "%s#%d" % (name, len(asked))
+        raise AttributeError(name)
+
 
 class World:
     def __init__(self):
@@ -125,6 +139,23 @@ def check_table(world, ctx):
                 pass
             if mine[0] != theirs[0] or (mine[0] == "value" and mine[1] is not theirs[1] and not (type(mine[1]) is type(theirs[1]) and mine[1] == theirs[1])):
                 raise Violation("one-hop-forwarding", "%s: link %d (%s) answers %r for %r, its direct target (%s) answers %r" % (ctx, label, type(node).__name__, mine, name, type(node.target).__name__, theirs))
+    for label, node in enumerate(world.nodes):
+        # a forwarded read IS one read of the target: computed attributes are evaluated exactly once per read of the link
+        base = world.nodes[world.resolve(label)]
+        if world.kind[label] != "link" or type(base) is not PropNode:
+            continue
+        t0 = base.ticket
+        via = node.ticket
+        t2 = base.ticket
+        if via != t0 + 1 or t2 != t0 + 2:
+            raise Violation("forwarded-read-evaluated-once", "%s: the target's counting property gave %r, then %r through link %d, then %r directly" % (ctx, t0, via, label, t2))
+        asked0 = len(base.__dict__.get("_asked", []))
+        answer = getattr(node, "dyn_q")
+        asked = base.__dict__.get("_asked", [])
+        if answer != "dyn_q#%d" % (asked0 + 1) or len(asked) != asked0 + 1:
+            raise Violation("forwarded-read-evaluated-once", "%s: reading a computed default through link %d gave %r; the target was asked %d time(s)" % (ctx, label, answer, len(asked) - asked0))
+        if hasattr(node, "undefined_everywhere") or len(base.__dict__.get("_asked", [])) != asked0 + 1:
+            raise Violation("forwarded-read-evaluated-once", "%s: a name defined nowhere is reported as present through link %d" % (ctx, label))
     for node in world.nodes:
         # the navigation attributes of every node - links included - follow its OWN position (definitions of C04)
         c04.check_node(node, world.rec.labels)
